@@ -105,7 +105,7 @@ Fixpoint ev (fuel : nat) (g : goal) : option gres :=
                             {| ty := 0; tstr := ""; sline := 0; scol := 0; eline := 0; ecol := 0; tline := ""; tspace := false |} with
                     | Some _ => Some (RItem (tok_step toks (fun t => match kind_match K keywords soft_keywords n t with
                                                                     | Some b => b | None => false end) p))
-                    | None => Some (RItem PFail)      (* not a token kind the model knows: outside the semantics *)
+                    | None => None                    (* not a token kind the model knows: outside the semantics, no verdict *)
                     end
           end
       | StringLeaf raw => Some (RItem (tok_step toks (fun t => String.eqb (tstr t) (strip_quotes raw)) p))
